@@ -12,19 +12,22 @@
 //!     |N(Z)| <= 8, otherwise all subsets of the records near the query name plus random subsets,
 //!     plus mixtures with records of a sibling zone (a 1–2 edit variant of Z) and with the
 //!     parent-side NSEC of the delegation of z. itself.
-//!     The oracle looks at `Proof::Secure` verdicts only:
-//!       rule `secure-but-false`: every record of S is genuine in Z and the response's claim
-//!         (DESIGN A.4) is false in Z (incl.: the name is at/below a cut of Z and the claim is not
-//!         "no DS at the cut" – RFC 6840 §4.1/§4.4: the child zone decides, parent-side records
-//!         cannot entail it);
-//!       rule `secure-but-not-entailed`: a concrete zone Z' within two edits of Z (or the sibling)
-//!         exists in which every record of S is genuine (identical owner, next, bitmap), the expanded
-//!         wildcard RRset (if any) exists, and the claim is false. Z' is the witness.
+//!     The oracle looks at `Proof::Secure` verdicts only (rule `secure-not-entailed`): the verdict
+//!     is a violation iff a concrete zone W exists in which every in-zone record of S is genuine
+//!     (identical owner, next, bitmap; W owns the expanded wildcard RRset if the response carries
+//!     one) and the response's claim (DESIGN A.4) is false. W ranges over Z itself (clause (a): the
+//!     claim is simply false in the zone the records come from – this includes "the name is at/below
+//!     a cut of Z and the claim is not 'no DS at the cut'": the child zone decides, parent-side
+//!     records cannot entail it, RFC 6840 §4.1/§4.4), the sibling, and every zone within two edits
+//!     of Z over the names {qname, its ancestors, `*.`ancestor, one child of qname} (clause (b),
+//!     DESIGN A.5; ~2000 candidate zones per (qname, qtype)). W is stored in the witness.
 //!     Counter-models are searched on a fast interned twin of the model (`fast`) and re-checked on
 //!     the slow `refzone` model before being reported; a disagreement makes the run inconclusive.
 //!     An alarm therefore always comes with a concrete world in which all presented evidence is
 //!     genuine and the accepted response is false. A validator that is stricter than necessary can
-//!     never cause one.
+//!     never cause one. The signature names the first requirement of RFC 4035 §5.4 / RFC 6840 §4
+//!     the presented set fails (`diagnose`, labelling only) plus two causality probes (verdict
+//!     depends on an "ancestor delegation" NSEC / on the absence of the SOA).
 //!
 //! (2) COMPLETENESS end to end: Z is loaded into hickory's `InMemoryZoneHandler`, signed by hickory
 //!     (NSEC), served through `Catalog::handle_request`, and every query is resolved through the real
@@ -297,6 +300,8 @@ impl Call {
 }
 
 struct Finding {
+    /// the witness world is the zone itself (no edits)
+    in_zone: bool,
     rule: &'static str,
     sig: String,
     case: Value,
@@ -513,7 +518,7 @@ fn judge_secure(env: &ZoneEnv, cands: &CandSet, cache: &mut ConfirmCache, c: &Ca
     let rule = "secure-not-entailed";
     let sig = format!("{}|{}|validator", claim.as_str(), label);
     if !want_witness(&format!("{rule}|{sig}")) {
-        return Some(Finding { rule, sig, case: Value::Null, expected: Value::Null, observed: Value::Null });
+        return Some(Finding { in_zone: in_z, rule, sig, case: Value::Null, expected: Value::Null, observed: Value::Null });
     }
     let mut case = case_json(env, c);
     case["counter_model"] = json!({
@@ -521,6 +526,7 @@ fn judge_secure(env: &ZoneEnv, cands: &CandSet, cache: &mut ConfirmCache, c: &Ca
         "falsified_because": reason.tag(),
         "derived_from": if cand.base == 0 { "zone" } else { "sibling" },
         "edits": fast::show_edits(&env.uni, cand),
+        "zone": zp.to_json(),
         "zone_text": zp.to_text(),
         "genuine_chain": zp_chain.iter().map(|n| n.show()).collect::<Vec<_>>(),
     });
@@ -530,7 +536,7 @@ fn judge_secure(env: &ZoneEnv, cands: &CandSet, cache: &mut ConfirmCache, c: &Ca
                    else { format!("the NSECs presented are all genuine in the counter-model zone ({} edit(s) away), where the claim '{}' is false: {} – so they do not entail the response", cand.n, claim.as_str(), reason.text()) },
         "truth_in_zone": format!("{:?}", denial::claim_truth(&env.z, &c.q, c.t, &claim)),
     });
-    Some(Finding { rule, sig, case, expected, observed: json!({"verify_nsec": "Secure"}) })
+    Some(Finding { in_zone: in_z, rule, sig, case, expected, observed: json!({"verify_nsec": "Secure"}) })
 }
 
 // ---------------------------------------------------------------------------------------------
@@ -630,7 +636,8 @@ fn subsets_for(rng: &mut Rng, env: &ZoneEnv, q: &Name, cfg: &SweepCfg) -> Vec<u6
 fn h2_zone(run: &mut H2Runner, rng: &mut Rng, z: &Zone, qnames: &[Name], cfg: &SweepCfg) {
     let zs = signed_view(z);
     let sib = signed_view(&gen_sibling(rng, z));
-    let env = match ZoneEnv::new(&zs, Some(&sib), qnames, &[], Some(rng.bool())) {
+    let _ = rng.bool();
+    let env = match ZoneEnv::new(&zs, Some(&sib), qnames, &[], Some(true)) {
         Ok(e) => e,
         Err(e) => {
             run.rep.inconclusive(&format!("zone could not be interned: {e}"));
@@ -715,7 +722,7 @@ fn h2_zone(run: &mut H2Runner, rng: &mut Rng, z: &Zone, qnames: &[Name], cfg: &S
                                 // a panic is not a Secure verdict; report it (no-panic is part of
                                 // "accepted only if": the procedure must return)
                                 let call = Call { q: q.clone(), t, nx, labels, soa, s: idx.clone() };
-                                run.report(Finding { rule: "panic", sig: p.site(), case: case_json(&env, &call), expected: json!("a Proof"), observed: json!({"panic": p.message, "at": p.location}) });
+                                run.report(Finding { in_zone: true, rule: "panic", sig: p.site(), case: case_json(&env, &call), expected: json!("a Proof"), observed: json!({"panic": p.message, "at": p.location}) });
                                 continue;
                             }
                         };
@@ -930,25 +937,31 @@ fn shape_kind(s: &Shape) -> &'static str {
 }
 
 /// the NSEC records RFC 4035 §3.1.3 asks the server to attach, taken from the reference chain
-fn required_nsecs(zs: &Zone, chain: &[Nsec], e: &refzone::Outcome) -> Vec<Nsec> {
+fn required_nsecs(zs: &Zone, chain: &[Nsec], e: &refzone::Outcome) -> Vec<(Nsec, &'static str)> {
     let q = &e.qname;
     let find_match = |n: &Name| chain.iter().find(|r| r.owner == *n).cloned();
     let find_cover = |n: &Name| chain.iter().find(|r| ref_covers(r, n, &zs.apex)).cloned();
-    let mut v: Vec<Nsec> = Vec::new();
-    match e.kind {
-        Kind::Nodata => v.extend(find_match(q)),
-        Kind::EntNodata => v.extend(find_cover(q)),
-        Kind::Nxdomain => {
-            v.extend(find_cover(q));
-            v.extend(find_cover(&zs.source_of_synthesis(q)));
+    let mut v: Vec<(Nsec, &'static str)> = Vec::new();
+    let mut add = |r: Option<Nsec>, why: &'static str| {
+        if let Some(r) = r {
+            if !v.iter().any(|(x, _)| *x == r) {
+                v.push((r, why));
+            }
         }
-        Kind::WildcardAnswer | Kind::WildcardCname => v.extend(find_cover(q)),
-        Kind::CnameChain => {}
+    };
+    match e.kind {
+        Kind::Nodata => add(find_match(q), "match-qname"),
+        Kind::EntNodata => add(find_cover(q), "cover-qname"),
+        Kind::Nxdomain => {
+            add(find_cover(q), "cover-qname");
+            add(find_cover(&zs.source_of_synthesis(q)), "cover-wildcard");
+        }
+        Kind::WildcardAnswer | Kind::WildcardCname => add(find_cover(q), "cover-qname"),
         Kind::WildcardNodata => {
-            v.extend(find_cover(q));
+            add(find_cover(q), "cover-qname");
             let w = zs.source_of_synthesis(q);
             // an ENT wildcard has no NSEC of its own: the record covering it proves it is an ENT
-            v.extend(find_match(&w).or_else(|| find_cover(&w)));
+            add(find_match(&w).or_else(|| find_cover(&w)), "match-wildcard");
         }
         _ => {}
     }
@@ -956,11 +969,9 @@ fn required_nsecs(zs: &Zone, chain: &[Nsec], e: &refzone::Outcome) -> Vec<Nsec> 
     // target) needs the NSEC proving that no closer match exists
     for st in e.steps.iter().skip(1) {
         if matches!(st.kind, Kind::WildcardAnswer | Kind::WildcardCname) {
-            v.extend(find_cover(&st.qname));
+            add(find_cover(&st.qname), "cover-cname-target");
         }
     }
-    v.sort();
-    v.dedup();
     v
 }
 
@@ -1099,13 +1110,13 @@ impl E2eRunner<'_> {
         self.rep.count(if accepted { "e2e/accepted" } else { "e2e/rejected" });
         if !server_ok {
             self.rep.count("e2e/server_answer_wrong");
-            let sig = format!("{}>{}|server", e.kind.as_str(), if sk == expected_shape { "different-records" } else { sk });
+            let sig_of = |side: &str| format!("{}>{}|{}", e.kind.as_str(), if sk == expected_shape { "different-records" } else { sk }, side);
             // a response of the wrong *shape* that is itself a denial or an expansion claims something
             // the zone does not justify; accepting it is an end-to-end soundness failure
             if accepted && sk != expected_shape && matches!(sk, "nxdomain" | "nodata" | "wildcard-answer" | "nxdomain+answer") {
-                self.report("e2e-wrong-answer-accepted", sig, case(), json!({"refauth": e.to_json(), "validator": "must not accept a response the zone does not justify"}), observed());
+                self.report("e2e-wrong-answer-accepted", sig_of("server+validator"), case(), json!({"refauth": e.to_json(), "validator": "must not accept a response the zone does not justify"}), observed());
             } else if !accepted {
-                self.report("completeness-server-answer-wrong", sig, case(), json!({"refauth": e.to_json(), "validator": "accept – but the response itself is not what the zone prescribes (see C10), so no acceptable proof exists"}), observed());
+                self.report("completeness-server-answer-wrong", sig_of("server"), case(), json!({"refauth": e.to_json(), "validator": "accept – but the response itself is not what the zone prescribes (see C10), so no acceptable proof exists"}), observed());
             } else {
                 self.rep.count("e2e/dontcare_wrong_positive_answer_accepted");
             }
@@ -1123,7 +1134,7 @@ impl E2eRunner<'_> {
         // rejected although the response is right: which side?
         let required = required_nsecs(zs, ref_chain, &e);
         let same_span = |a: &Nsec, b: &Nsec| a.owner == b.owner && a.next == b.next;
-        let attached_ok = required.iter().all(|r| shape.nsecs.iter().any(|x| same_span(x, r)));
+        let attached_ok = required.iter().all(|(r, _)| shape.nsecs.iter().any(|x| same_span(x, r)));
         let side = if attached_ok { "validator" } else { "server" };
         let mut feats: Vec<String> = Vec::new();
         // wildcard-expanded RRsets of the answer section: (owner, labels)
@@ -1144,8 +1155,14 @@ impl E2eRunner<'_> {
                     feats.push("asterisk-encloser".into());
                 }
             }
-        } else if !zs.exists(q) && zs.in_zone(q) && refzone::is_wildcard(&zs.closest_encloser(q)) {
-            feats.push("asterisk-encloser".into());
+        } else if !zs.exists(q) && zs.in_zone(q) {
+            // the query name does not exist: how far below its closest encloser it is (the server
+            // derives the wildcard part of the proof from the parent of the query name)
+            let ce = zs.closest_encloser(q);
+            feats.push(if q.len() - ce.len() <= 1 { "depth-1".into() } else { "depth-2+".into() });
+            if refzone::is_wildcard(&ce) {
+                feats.push("asterisk-encloser".into());
+            }
         }
         if zs.is_delegation(q) {
             feats.push("at-cut".into());
@@ -1155,26 +1172,7 @@ impl E2eRunner<'_> {
         }
         if !attached_ok {
             // which part of the proof is missing
-            let missing: Vec<&Nsec> = required.iter().filter(|r| !shape.nsecs.iter().any(|x| same_span(x, r))).collect();
-            let what = missing
-                .iter()
-                .map(|m| {
-                    if m.owner == *q {
-                        "match-qname"
-                    } else if ref_covers(m, q, &zs.apex) {
-                        "cover-qname"
-                    } else if m.owner == zs.source_of_synthesis(q) {
-                        "match-wildcard"
-                    } else if ref_covers(m, &zs.source_of_synthesis(q), &zs.apex) {
-                        "cover-wildcard"
-                    } else {
-                        "cover-cname-target"
-                    }
-                })
-                .collect::<BTreeSet<_>>()
-                .into_iter()
-                .collect::<Vec<_>>()
-                .join("+");
+            let what = required.iter().filter(|(r, _)| !shape.nsecs.iter().any(|x| same_span(x, r))).map(|(_, why)| *why).collect::<BTreeSet<_>>().into_iter().collect::<Vec<_>>().join("+");
             feats.push(format!("missing-{what}"));
         }
         let sig = format!("{}|{}|{}|{}", group, if feats.is_empty() { "-".to_string() } else { feats.join("+") }, val.reject_class(), side);
@@ -1182,7 +1180,7 @@ impl E2eRunner<'_> {
             "completeness",
             sig,
             case(),
-            json!({"refauth": e.to_json(), "validator": "accepts the server's response", "rfc4035_3_1_3_required_nsecs": required.iter().map(|n| n.show()).collect::<Vec<_>>(), "attached_contains_required": attached_ok}),
+            json!({"refauth": e.to_json(), "validator": "accepts the server's response", "rfc4035_3_1_3_required_nsecs": required.iter().map(|(n, why)| format!("{}: {}", why, n.show())).collect::<Vec<_>>(), "attached_contains_required": attached_ok}),
             observed(),
         );
     }
@@ -1211,24 +1209,25 @@ impl E2eRunner<'_> {
 // ---------------------------------------------------------------------------------------------
 // replay
 
-fn replay(ctx: &Ctx, rep: &mut Reporter, w: &Value) {
-    let c = &w["case"];
-    let bad = |m: &str| -> ! {
-        eprintln!("bad replay file: {m}");
-        std::process::exit(3)
-    };
-    let z = Zone::from_json(&c["zone"]).unwrap_or_else(|e| bad(&e));
-    let _ = ctx;
+/// Evaluate one self-contained case (the `case` object of a witness). Violations go to `rep`;
+/// returns their "rule|sig" keys.
+fn eval_case(rep: &mut Reporter, c: &Value) -> Result<BTreeSet<String>, String> {
+    let z = Zone::from_json(&c["zone"])?;
+    let mut out = BTreeSet::new();
     match c["kind"].as_str().unwrap_or("") {
         "h2" => {
-            let sibling = if c["sibling"].is_null() { None } else { Some(Zone::from_json(&c["sibling"]).unwrap_or_else(|e| bad(&e))) };
-            let q = refzone::name(c["qname"].as_str().unwrap_or_else(|| bad("qname")));
-            let t = refzone::type_code(c["qtype"].as_str().unwrap_or("")).unwrap_or_else(|| bad("qtype"));
+            let sibling = if c["sibling"].is_null() { None } else { Some(Zone::from_json(&c["sibling"])?) };
+            let q = refzone::name(c["qname"].as_str().ok_or("qname")?);
+            let t = refzone::type_code(c["qtype"].as_str().unwrap_or("")).ok_or("qtype")?;
+            let tbit = fast::bit_of(t).ok_or("qtype not modelled")?;
             let nx = c["rcode"].as_str() == Some("NXDOMAIN");
             let labels = c["answer_rrsig_labels"].as_u64().map(|l| l as usize);
+            if labels.is_some_and(|l| l >= q.len() || l < z.apex.len()) {
+                return Err("answer_rrsig_labels out of range".into());
+            }
             let soa = !c["soa_owner"].is_null();
             let nsecs: Vec<Nsec> = c["nsecs"].as_array().map(|a| a.iter().filter_map(Nsec::from_json).collect()).unwrap_or_default();
-            let env = ZoneEnv::new(&z, sibling.as_ref(), &[q.clone()], &nsecs, None).unwrap_or_else(|e| bad(&e));
+            let env = ZoneEnv::new(&z, sibling.as_ref(), &[q.clone()], &nsecs, None)?;
             let s: Vec<usize> = nsecs.iter().map(|n| env.pool.iter().position(|p| p.nsec == *n).expect("record in pool")).collect();
             let call = Call { q: q.clone(), t, nx, labels, soa, s };
             let query = Query::new(hname(&q), RecordType::from(t));
@@ -1240,33 +1239,155 @@ fn replay(ctx: &Ctx, rep: &mut Reporter, w: &Value) {
             match run_call(&env, &call, &answers, &query) {
                 Ok(Proof::Secure) => {
                     let qid = env.uni.id(&q).unwrap();
-                    let cands = CandSet::build(&env.uni, &env.fz, env.fsib.as_ref(), qid, fast::bit_of(t).unwrap_or_else(|| bad("qtype not modelled")), true);
+                    let cands = CandSet::build(&env.uni, &env.fz, env.fsib.as_ref(), qid, tbit, true);
                     let mut notes = Vec::new();
                     let mut confirm: ConfirmCache = HashMap::new();
                     if let Some(f) = judge_secure(&env, &cands, &mut confirm, &call, &answers, &query, &mut notes, &mut |_| true) {
+                        out.insert(format!("{}|{}", f.rule, f.sig));
+                        if f.in_zone {
+                            out.insert("(witness: the zone itself)".into());
+                        }
                         rep.violation(f.rule, &f.sig, f.case, f.expected, f.observed);
                     }
                 }
-                Ok(p) => println!("verify_nsec now returns {p}"),
-                Err(p) => rep.violation("panic", &p.site(), case_json(&env, &call), json!("a Proof"), json!({"panic": p.message})),
+                Ok(p) => println!("verify_nsec returns {p}"),
+                Err(p) => {
+                    out.insert(format!("panic|{}", p.site()));
+                    rep.violation("panic", &p.site(), case_json(&env, &call), json!("a Proof"), json!({"panic": p.message}));
+                }
             }
         }
         "e2e" | "chain" => {
             let rt = tokio::runtime::Builder::new_current_thread().enable_time().build().expect("tokio runtime");
             let mut r = E2eRunner { rep, rt, reported: Default::default() };
             let zs = signed_view(&z);
-            let served = e2e::serve(&z).unwrap_or_else(|e| bad(&e));
+            let served = e2e::serve(&z)?;
             if c["kind"].as_str() == Some("chain") {
                 r.check_chain(&z, &zs, &served.chain);
             } else {
-                let q = refzone::name(c["qname"].as_str().unwrap_or_else(|| bad("qname")));
-                let t = refzone::type_code(c["qtype"].as_str().unwrap_or("")).unwrap_or_else(|| bad("qtype"));
+                let q = refzone::name(c["qname"].as_str().ok_or("qname")?);
+                let t = refzone::type_code(c["qtype"].as_str().unwrap_or("")).ok_or("qtype")?;
                 let ref_chain = denial::nsec_chain(&zs);
                 let (v, _up) = e2e::validator(&served);
                 r.check_query(&z, &zs, &ref_chain, &served, &v, &q, t);
             }
+            out.extend(r.reported.keys().cloned());
         }
-        other => bad(&format!("unknown case kind {other:?}")),
+        other => return Err(format!("unknown case kind {other:?}")),
+    }
+    Ok(out)
+}
+
+/// `--replay FILE minimize=1`: greedily shrink the witness (drop the sibling, NSEC records, owners,
+/// single records) while exactly the same "rule|sig" is produced; the shrunk witness is written as
+/// a violation file into --out. Tooling for producing small committed witnesses, no verdict.
+fn minimize(ctx: &Ctx, w: &Value) -> Value {
+    let target = format!("{}|{}", w["rule"].as_str().unwrap_or(""), w["sig"].as_str().unwrap_or(""));
+    let scratch = Ctx { out: ctx.out.join("scratch"), ..ctx.clone() };
+    let _ = std::fs::create_dir_all(&scratch.out);
+    let marker = "(witness: the zone itself)";
+    let run = |c: &Value| -> BTreeSet<String> {
+        let mut rep = Reporter::new(&scratch);
+        match mon::catch(|| eval_case(&mut rep, c)) {
+            Ok(Ok(s)) => s,
+            _ => BTreeSet::new(),
+        }
+    };
+    let mut c = w["case"].clone();
+    let cm_zone = c["counter_model"]["zone"].clone();
+    if let Some(o) = c.as_object_mut() {
+        o.remove("counter_model");
+        o.remove("zone_text");
+    }
+    let first = run(&c);
+    if !first.contains(&target) {
+        eprintln!("the witness does not reproduce {target} on its own; not minimised");
+        return c;
+    }
+    let mut need_marker = first.contains(marker);
+    // prefer a witness whose zone is itself the counter-model (every NSEC presented is in N(Z))
+    if !need_marker && !cm_zone.is_null() {
+        let mut c2 = c.clone();
+        c2["zone"] = cm_zone;
+        c2["sibling"] = Value::Null;
+        let r = run(&c2);
+        if r.contains(&target) && r.contains(marker) {
+            c = c2;
+            need_marker = true;
+        }
+    }
+    let good = |c: &Value| -> bool {
+        let s = run(c);
+        s.contains(&target) && s.iter().filter(|k| k.as_str() != marker).count() == 1 && (!need_marker || s.contains(marker))
+    };
+    if !c["sibling"].is_null() {
+        let mut c2 = c.clone();
+        c2["sibling"] = Value::Null;
+        if good(&c2) {
+            c = c2;
+        }
+    }
+    loop {
+        let mut changed = false;
+        // NSEC records
+        let n = c["nsecs"].as_array().map_or(0, |a| a.len());
+        for i in (0..n).rev() {
+            let mut c2 = c.clone();
+            c2["nsecs"].as_array_mut().unwrap().remove(i);
+            if good(&c2) {
+                c = c2;
+                changed = true;
+            }
+        }
+        for key in ["zone", "sibling"] {
+            if c[key].is_null() {
+                continue;
+            }
+            // whole owners, then single records (the apex keeps SOA and one NS)
+            let apex = c[key]["apex"].as_str().unwrap_or("").to_string();
+            let owners: BTreeSet<String> = c[key]["records"].as_array().map(|a| a.iter().filter_map(|r| r[0].as_str().map(String::from)).collect()).unwrap_or_default();
+            for o in owners {
+                if o == apex {
+                    continue;
+                }
+                let mut c2 = c.clone();
+                c2[key]["records"].as_array_mut().unwrap().retain(|r| r[0].as_str() != Some(&o));
+                if good(&c2) {
+                    c = c2;
+                    changed = true;
+                }
+            }
+            let n = c[key]["records"].as_array().map_or(0, |a| a.len());
+            for i in (0..n).rev() {
+                let r = c[key]["records"][i].clone();
+                let is_apex = r[0].as_str() == Some(&apex);
+                let t = r[1].as_str().unwrap_or("");
+                let same = c[key]["records"].as_array().unwrap().iter().filter(|x| x[0] == r[0] && x[1] == r[1]).count();
+                if is_apex && (t == "SOA" || t == "DNSKEY" || (t == "NS" && same == 1)) {
+                    continue;
+                }
+                let mut c2 = c.clone();
+                c2[key]["records"].as_array_mut().unwrap().remove(i);
+                if good(&c2) {
+                    c = c2;
+                    changed = true;
+                }
+            }
+        }
+        if !changed {
+            break;
+        }
+    }
+    c
+}
+
+fn replay(ctx: &Ctx, rep: &mut Reporter, w: &Value) {
+    // a bare case object (hand-written) is accepted as well as a full witness
+    let w = if w["case"].is_null() { json!({"case": w.clone()}) } else { w.clone() };
+    let case = if ctx.extra.contains_key("minimize") { minimize(ctx, &w) } else { w["case"].clone() };
+    if let Err(e) = eval_case(rep, &case) {
+        eprintln!("bad replay file: {e}");
+        std::process::exit(3)
     }
 }
 
@@ -1339,20 +1460,21 @@ fn main() {
     }
 
     let thorough = ctx.is_thorough();
-    rep.must("h2/secure", 10_000);
-    rep.must("h2/bogus", 100_000);
-    rep.must("h2/secure_entailed", 5_000);
-    for k in ["nxdomain", "nodata", "wildcard-expansion", "wildcard-nodata", "ent-nodata", "ds-nodata-at-cut"] {
-        rep.must(&format!("secure_true/{k}"), 20);
+    rep.must("h2/secure", 1_000_000);
+    rep.must("h2/bogus", 3_000_000);
+    rep.must("h2/secure_entailed", 200_000);
+    for (k, min) in [("nxdomain", 50_000), ("nodata", 10_000), ("wildcard-expansion", 50_000), ("wildcard-nodata", 10_000), ("ent-nodata", 1_000), ("ds-nodata-at-cut", 100)] {
+        rep.must(&format!("secure_true/{k}"), min);
     }
-    rep.must("h2/cut_case_calls", 10_000);
-    rep.must("h2/zones_all_subsets_swept", 8);
+    rep.must("h2/cut_case_calls", 100_000);
+    rep.must("h2/cut_case_secure", 10_000);
+    rep.must("h2/zones_all_subsets_swept", 16);
     rep.must("h2/calls_in_all_subset_sweeps", 1_000_000);
-    rep.must("h2/calls_soa_absent", 100_000);
-    rep.must("h2/candidates_crosschecked", 50);
-    rep.must("e2e/secure", 1_000);
-    rep.must("e2e/secure_denials", 300);
-    rep.must("e2e/chains_compared", 50);
+    rep.must("h2/calls_soa_absent", 1_000_000);
+    rep.must("h2/candidates_crosschecked", 500);
+    rep.must("e2e/secure", 10_000);
+    rep.must("e2e/secure_denials", 10_000);
+    rep.must("e2e/chains_compared", 100);
     let _ = thorough;
 
     let apex = refzone::default_apex();
